@@ -1,5 +1,6 @@
 import DadiVerif.Lemmas.Mass
 import DadiVerif.Lemmas.Marginal2
+import DadiVerif.Lemmas.Pivots
 /-!
 # C04 — mass leaves only via fixation/loss; frozen marginals exact; frozen+migration rejected
 
@@ -221,6 +222,10 @@ theorem C04_isolated_marginal_integrate : type_of% @marginal_invariant_integrate
     trapezoid marginal over population 2 of `integrateConst (sweepFn [xs, xs] …)` equals `integrateConst (sweepFn [xs] …)` at every
     interior frequency, population 2 having arbitrary size, selection and dominance -/
 theorem C04_isolated_marginal_2D : type_of% @marginal_2D_pop0_integrate := @marginal_2D_pop0_integrate
+
+/-- the same without any pivot hypothesis for the isolated population and the 1-D system (ν > 0, dt > 0 suffice: the neutral
+    scheme is an M-matrix); only population 2, whose parameters are arbitrary, keeps its hypothesis -/
+theorem C04_isolated_marginal_2D_nopiv : type_of% @marginal_2D_pop0_integrate_nopiv := @marginal_2D_pop0_integrate_nopiv
 
 /-- non-vacuity: a strictly increasing 4-point grid is `GridOk`; a line with one interior other-coordinate is non-corner -/
 example : GridOk #[0, 1/4, 1/2, 1] := by
